@@ -79,6 +79,16 @@ func vStepTaker(role int, st StateType) {
 		}
 	}
 	_ = nextType0
+	// ---- C23: what leaves the node ----
+	for i := range w.sends {
+		snd := w.sends[i]
+		if snd.msgType == int(messages.MESSAGETYPE_COOPCLOSE) {
+			// the taker's own swap key is what coop_close is for; nothing else secret may be in it
+			zzverif.AssertNoFlow("C23.coop_close_carries_only_the_swap_key", snd.payload, "claimpreimage", "pay.preimage", "payfee.preimage", "rand.GetPreimage", "newprivkey")
+		} else {
+			zzverif.AssertNoFlow("C23.no_secret_in_taker_message", snd.payload, "privkey", "claimpreimage", "pay.preimage", "payfee.preimage", "rand.GetPreimage", "newprivkey")
+		}
+	}
 }
 
 // H_C06_payActionContract: the real paying action stays inside the summary used by the history
@@ -107,53 +117,53 @@ func H_C06_payActionContract() {
 	zzverif.Assert(ev == Event_ActionFailed || (s.CancelMessage == cancel0 && s.LastErrString == pre.LastErrString), "C06.payaction_success_keeps_error_fields")
 }
 
-// zzverif:also C13 C15
+// zzverif:also C13 C15 C23
 func H_C06_step_os_AwaitAgreement() { vStepTaker(rOutSender, State_SwapOutSender_AwaitAgreement) }
 
-// zzverif:also C13 C15
+// zzverif:also C13 C15 C23
 func H_C06_step_os_AwaitTxBroadcasted() {
 	vStepTaker(rOutSender, State_SwapOutSender_AwaitTxBroadcastedMessage)
 }
 
-// zzverif:also C13 C15
+// zzverif:also C13 C15 C23
 func H_C06_step_os_AwaitTxConfirmation() {
 	vStepTaker(rOutSender, State_SwapOutSender_AwaitTxConfirmation)
 }
 
-// zzverif:also C13 C15
+// zzverif:also C13 C15 C23
 func H_C06_step_os_ValidateTxAndPay() {
 	vStepTaker(rOutSender, State_SwapOutSender_ValidateTxAndPayClaimInvoice)
 }
 
-// zzverif:also C13 C15
+// zzverif:also C13 C15 C23
 func H_C06_step_os_ClaimSwap() { vStepTaker(rOutSender, State_SwapOutSender_ClaimSwap) }
 
-// zzverif:also C13 C15
+// zzverif:also C13 C15 C23
 func H_C06_step_os_SendPrivkey() { vStepTaker(rOutSender, State_SwapOutSender_SendPrivkey) }
 
-// zzverif:also C13 C15
+// zzverif:also C13 C15 C23
 func H_C06_step_os_SwapCanceled() { vStepTaker(rOutSender, State_SwapCanceled) }
 
-// zzverif:also C13 C15
+// zzverif:also C13 C15 C23
 func H_C06_step_ir_SendAgreement() { vStepTaker(rInReceiver, State_SwapInReceiver_SendAgreement) }
 
-// zzverif:also C13 C15
+// zzverif:also C13 C15 C23
 func H_C06_step_ir_AwaitTxBroadcasted() {
 	vStepTaker(rInReceiver, State_SwapInReceiver_AwaitTxBroadcastedMessage)
 }
 
-// zzverif:also C13 C15
+// zzverif:also C13 C15 C23
 func H_C06_step_ir_AwaitTxConfirmation() {
 	vStepTaker(rInReceiver, State_SwapInReceiver_AwaitTxConfirmation)
 }
 
-// zzverif:also C13 C15
+// zzverif:also C13 C15 C23
 func H_C06_step_ir_ValidateTxAndPay() {
 	vStepTaker(rInReceiver, State_SwapInReceiver_ValidateTxAndPayClaimInvoice)
 }
 
-// zzverif:also C13 C15
+// zzverif:also C13 C15 C23
 func H_C06_step_ir_ClaimSwap() { vStepTaker(rInReceiver, State_SwapInReceiver_ClaimSwap) }
 
-// zzverif:also C13 C15
+// zzverif:also C13 C15 C23
 func H_C06_step_ir_SendPrivkey() { vStepTaker(rInReceiver, State_SwapInReceiver_SendPrivkey) }
